@@ -287,7 +287,7 @@ func init() {
 				}
 				return 20000
 			}, Run: c20Triples},
-			{Name: "random", N: func(c *Ctx) int { return tierN(c, 20000, 400000) }, Run: c20Random},
+			{Name: "random", N: func(c *Ctx) int { return tierN(c, 20000, 2000000) }, Run: c20Random},
 		},
 	})
 }
